@@ -23,8 +23,8 @@ STUBS = ["np proxy", "SymArray", "bounds.min/max symbolic"]
 
 def bounds_text(tier):
     if tier == "quick":
-        return "n=3 all K x r in 0..10,100 (r=1000 on 4 K); n=4 all K x r=0, 256 K x r=1, 32 K x r=2; n=5 20 K x r=0, 6 K x r=1"
-    return "n=3 all K x r in 0..10,100,1000; n=4 all K x r in 0..3, 32 K x r=10; n=5 F5 sample 400 K x r in {0,1}, 40 K x r=2"
+        return "direct runs: n=3 all K x r in 0..10,100 (r=1000 on 4 K); n=4 all K x r=0, 256 K x r=1, 32 K x r=2; n=5 20 K x r=0; inductive step of the repetition loop (any r>=1): n=3 all K, n=4 256 K, n=5 10 K"
+    return "direct runs: n=3 all K x r in 0..10,100,1000; n=4 all K x r in 0..3, 32 K x r=10; n=5 400 K x r in {0,1}, 12 K x r=2; inductive step: n=3,4 all K, n=5 600 K"
 
 
 def tasks(tier, seed):
